@@ -158,31 +158,47 @@ func runC07(seed int64, n int, dir string, tier string) *Report {
 			spdxSeams(rep, xs, g, d, "wild")
 			cdxSeams(rep, xc, d, "wild", gen.Pick(g, []string{"1.3", "1.4", "1.5"}))
 		}
-		for _, f := range allWriterFormats {
-			rep.OracleEvals++
-			before := proto.Clone(d).(*sbom.Document)
-			a := serializeOnce(d, f)
-			in := map[string]any{"format": string(f), "document": docJSON(before)}
-			rep.Count(fmt.Sprintf("%s:%s", shortFmt(f), a.kind))
-			switch a.kind {
-			case "panic":
-				rep.Fail(Failure{What: "a registered serializer panicked", Detail: a.err, Input: in})
-				continue
-			case "hang":
-				rep.Fail(Failure{What: "a registered serializer did not return within 10s", Input: in})
-				continue
+		firstOut := map[formats.Format]serOutcome{}
+		for pass := 0; pass < 2; pass++ {
+			if pass == 1 {
+				// every format again after all the others have seen the document: what one serializer does to
+				// the document must not show in another's output
+				for _, f := range allWriterFormats {
+					if was, ok := firstOut[f]; ok {
+						if now := serializeOnce(d, f); now.kind != was.kind || now.out != was.out {
+							rep.Fail(Failure{What: "serializing the same document again gave a different result", Detail: "after the document had been serialized in the other formats", Input: map[string]any{"format": string(f), "document": docJSON(d)}})
+						}
+					}
+				}
+				break
 			}
-			// determinism: again, and after other serializations
-			b := serializeOnce(d, f)
-			for _, p := range prev {
-				serializeOnce(p, gen.Pick(g, allWriterFormats))
-				// a write that fails half way (full disk, closed pipe) is part of "whatever was serialized before"
-				writeToFailingStream(p, gen.Pick(g, allWriterFormats), 1+g.Int(400))
-			}
-			writeToFailingStream(d, f, 1+g.Int(200))
-			c := serializeOnce(d, f)
-			if b.kind != a.kind || c.kind != a.kind || b.out != a.out || c.out != a.out {
-				rep.Fail(Failure{What: "serializing the same document again gave a different result", Detail: fmt.Sprintf("%s / %s / %s", a.kind, b.kind, c.kind), Input: in})
+			for _, f := range allWriterFormats {
+				rep.OracleEvals++
+				before := proto.Clone(d).(*sbom.Document)
+				a := serializeOnce(d, f)
+				firstOut[f] = a
+				in := map[string]any{"format": string(f), "document": docJSON(before)}
+				rep.Count(fmt.Sprintf("%s:%s", shortFmt(f), a.kind))
+				switch a.kind {
+				case "panic":
+					rep.Fail(Failure{What: "a registered serializer panicked", Detail: a.err, Input: in})
+					continue
+				case "hang":
+					rep.Fail(Failure{What: "a registered serializer did not return within 10s", Input: in})
+					continue
+				}
+				// determinism: again, and after other serializations
+				b := serializeOnce(d, f)
+				for _, p := range prev {
+					serializeOnce(p, gen.Pick(g, allWriterFormats))
+					// a write that fails half way (full disk, closed pipe) is part of "whatever was serialized before"
+					writeToFailingStream(p, gen.Pick(g, allWriterFormats), 1+g.Int(400))
+				}
+				writeToFailingStream(d, f, 1+g.Int(200))
+				c := serializeOnce(d, f)
+				if b.kind != a.kind || c.kind != a.kind || b.out != a.out || c.out != a.out {
+					rep.Fail(Failure{What: "serializing the same document again gave a different result", Detail: fmt.Sprintf("%s / %s / %s", a.kind, b.kind, c.kind), Input: in})
+				}
 			}
 		}
 		prev = append(prev, d)
